@@ -133,8 +133,17 @@ class Request:
                  rec_limit=100000):
         self.__dict__.update(locals())
         del self.__dict__["self"]
+        self.prov = getattr(prob, "prov", 0)       # snapshot: generators reuse one Problem object for several requests
 
     def to_input(self):
+        keep = getattr(self.prob, "prov", 0)
+        self.prob.prov = self.prov
+        try:
+            return self._to_input()
+        finally:
+            self.prob.prov = keep
+
+    def _to_input(self):
         t = ["run", self.prob.to_input(), vec_in(self.x0), vec_in(self.y0), vec_in(self.S0),
              "%s %s %s" % (self.solver, self.direction, self.mode),
              "%d %s" % (len(self.params), " ".join(self.params)),
@@ -148,7 +157,7 @@ class Request:
         return {"solver": self.solver, "dir": self.direction, "mode": self.mode, "params": list(self.params),
                 "always_overwrite": self.always, "tolerance": self.tol, "max_time_ns": self.max_time_ns,
                 "stop_at_eval": self.stop_at_eval, "stop_at_cb": self.stop_at_cb, "nan_from_eval": self.nan_from_eval, "stop_at_dircall": self.stop_at_dircall,
-                "script": list(self.script), "x0": self.x0, "y0": self.y0, "Sigma": self.S0, "problem": self.prob.describe()}
+                "script": list(self.script), "x0": self.x0, "y0": self.y0, "Sigma": self.S0, "problem": dict(self.prob.describe(), supplied_optional_members_mask=self.prov)}
 
     def param(self, key, default=None):
         out = default
